@@ -682,3 +682,171 @@ Print Assumptions exact_data_fixed_point_instance_thm.
 Theorem iteration_limit_one_refuses_exact_data_thm : ex_solve_limit1 = true.
 Proof. exact iteration_limit_one_instance. Qed.
 Print Assumptions iteration_limit_one_refuses_exact_data_thm.
+
+(* ================================================================ session 5, package G, second round *)
+Require Import LV.SelfCal.VMatrixProofs LV.SelfCal.ExactOverPvalue LV.SelfCal.ExactOverPhysical.
+Require Import LV.Interp.QOrd LV.Interp.SplineModel.
+Require Import LV.SelfCal.VMatrixNoise LV.SelfCal.VMatrixNoiseProofs LV.SelfCal.VMatrixNoiseExample.
+
+(* V IS RE-INITIALISED AT EVERY FREQUENCY.  For every field, solver, tolerance, limit, initial x, every
+   list of per-frequency problems and every two solve states with the same pointers NULL (one vector
+   entry per standard): the loop over the frequencies that threads the solve state from one frequency
+   to the next computes exactly what solving every frequency on the state st' computes -- results
+   and the failure that ends the loop.  The result at a frequency does not depend on the frequencies
+   solved before it, nor on the contents of the V matrices it inherits. *)
+Theorem v_reinit_per_frequency_thm : forall (K : CField) (N : K -> Qc) (rsqrt : Qc -> Qc) (ofq : Qc -> K)
+  (minv : nat -> list K -> option (list K))
+  (solve_sq solve_ls : nat -> list (list K) -> list K -> option (list K))
+  (tol : Qc) (limit : nat) (xinit : list K) (ps : list (vprob K)) (st st' : vstate K),
+  (forall p, In p ps -> length (vp_stds p) = length st) -> shape K st = shape K st' ->
+  solve_frequencies K N rsqrt ofq minv solve_sq solve_ls tol limit xinit st ps =
+  solve_each K N rsqrt ofq minv solve_sq solve_ls tol limit xinit st' ps.
+Proof. exact v_reinit_per_frequency_l. Qed.
+Print Assumptions v_reinit_per_frequency_thm.
+
+(* MODEL OFF = UNWEIGHTED SOLVE, and BOTH VECTORS NULL RESTORE IT: for every history of
+   vnacal_new_set_m_error calls with any arguments on any earlier state that ends with (NULL, NULL),
+   a solve whose noise element is read from the stored vector returns what the unweighted solve
+   returns (same vector, same failure) *)
+Theorem model_off_is_unweighted_thm : forall (K : CField) (N : K -> Qc) (rsqrt : Qc -> Qc) (ofq : Qc -> K)
+  (minv : nat -> list K -> option (list K))
+  (solve_sq solve_ls : nat -> list (list K) -> list K -> option (list K))
+  (p : vprob K) (tol : Qc) (limit : nat) (xinit : list K), vp_noise p = None ->
+  x_of K (solve_frequency K N rsqrt ofq minv solve_sq solve_ls tol limit xinit (alloc_v K p) p) =
+  plain_systems K ofq solve_sq solve_ls p (vp_systems p).
+Proof. exact model_off_is_plain_l. Qed.
+Print Assumptions model_off_is_unweighted_thm.
+
+Theorem both_null_restores_thm : forall (K : CField) (N : K -> Qc) (rsqrt : Qc -> Qc) (ofq : Qc -> K)
+  (minv : nat -> list K -> option (list K)) (solve_sq solve_ls : nat -> list (list K) -> list K -> option (list K))
+  (leb ltb : Qc -> Qc -> bool) (interp : list Qc -> list Qc -> Qc -> Qc) (env : menv Qc)
+  (h : list (mvec Qc * margs Qc)) (st : option (mvec Qc)) (fresh : mvec Qc) (a : margs Qc)
+  (p : vprob K) (findex : nat) (tol : Qc) (limit : nat) (xinit : list K),
+  a_n Qc a <> 0%nat -> a_nf Qc a = None -> a_tr Qc a = None ->
+  vp_noise p = noise_at (run_args Qc 0 leb ltb interp true env st (h ++ [(fresh, a)])) findex ->
+  x_of K (solve_frequency K N rsqrt ofq minv solve_sq solve_ls tol limit xinit (alloc_v K p) p) =
+  plain_systems K ofq solve_sq solve_ls p (vp_systems p).
+Proof. exact both_null_restores_l. Qed.
+Print Assumptions both_null_restores_thm.
+
+(* THE BRIDGE: exact data fit in the sense of the p-value theorems, on every V state *)
+Theorem exact_data_fits_thm : forall (K : CField) (ofq : Qc -> K) (p : vprob K) (xs : list (list K)),
+  blocks_wf K p xs -> data_exact K ofq p xs -> forall st : vstate K,
+  fits K c0 c1 cadd cmul copp (vp_unknowns p) (concat xs) (pv_systems K p st 0 (vp_systems p)).
+Proof. exact exact_data_fits. Qed.
+Print Assumptions exact_data_fits_thm.
+
+(* EXACT OVER-DETERMINED DATA ARE NEVER REJECTED, END TO END ON THE MODELS: the solve with the noise
+   model on returns the truth, and for the residuals calc_pvalue computes on the V state the solve
+   ended with, every sigma_nf / sigma_tr, every exp / erfc / sqrt: the statistic is 0, the p-value is 1
+   (for EVERY number of degrees of freedom) and the verdict at any limit <= 1 is "not rejected".
+   Premises as in exact_data_fixed_point_thm, plus: leakage cells without scatter. *)
+Theorem exact_data_never_rejected_end_to_end_thm : forall (K : CField) (N : K -> Qc) (rsqrt : Qc -> Qc) (ofq : Qc -> K)
+  (minv : nat -> list K -> option (list K))
+  (solve_sq solve_ls : nat -> list (list K) -> list K -> option (list K))
+  (exp erfc sqrt : Qc -> Qc) (pi : Qc),
+  (forall z : K, 0 <= N z) -> (forall z : K, N z = 0 -> z = c0) -> N c0 = 0 ->
+  solver_spec K N solve_sq -> solver_spec K N solve_ls ->
+  forall (p : vprob K) (xs : list (list K)) (tol : Qc) (limit : nat) (xinit : list K) (st_prev : vstate K)
+         (leak : option (list (lcell K))) (ms : mstate) (findex : nat) (plimit : Qc),
+  blocks_wf K p xs -> data_exact K ofq p xs ->
+  (forall es, In es (vp_systems p) -> (vp_unknowns p <= length es)%nat) -> (2 <= limit)%nat ->
+  full_rank_on K ofq minv p xs (calc_weights K N rsqrt p) (init_v_matrices K (v_n K p) st_prev) ->
+  v_regular K minv p xs ->
+  match leak with Some cells => Forall (leak_exact K N) cells | None => True end ->
+  plimit <= 1 ->
+  exists st' ns,
+    solve_frequency K N rsqrt ofq minv solve_sq solve_ls tol limit xinit st_prev p = SOk (concat xs, st', ns) /\
+    forall nf tr,
+    fst (calc_stat K c0 c1 cadd cmul copp N (vp_unknowns p) nf tr (concat xs)
+                   (pv_systems K p st' 0 (vp_systems p)) leak) = 0 /\
+    calc_pvalue K c0 c1 cadd cmul copp N exp erfc sqrt pi (vp_unknowns p) nf tr (concat xs)
+                (pv_systems K p st' 0 (vp_systems p)) leak = 1 /\
+    solve_rejects K c0 c1 cadd cmul copp N exp erfc sqrt pi ms plimit findex (vp_unknowns p) (concat xs)
+                  (pv_systems K p st' 0 (vp_systems p)) leak = false.
+Proof. exact exact_data_never_rejected_end_to_end_l. Qed.
+Print Assumptions exact_data_never_rejected_end_to_end_thm.
+
+(* PHYSICAL EXACTNESS, T8 / TE10 and U8 / UE10, 1 x 1 and 2 x 2 (bounded): measurements of an error
+   network of the type -- M (Tx S + Tm) = Ts S + Ti, resp. Um M + Ui = S (Ux M + Us), entrywise --
+   make every v_cell group of every equation the library builds (build_terms_t8 / build_terms_u8, tied)
+   vanish, for EVERY connectivity pattern and EVERY pattern of S cells entered as the zero parameter *)
+Theorem physical_exactness_t8_2x2_thm : forall (K : CField) (ofq : Qc -> K) (conn szero : nat -> bool)
+  (m0 m1 m2 m3 s0 s1 s2 s3 ts0 ts1 ti0 ti1 tx0 tx1 tm1 : K),
+  let m := [m0; m1; m2; m3] in let s := [s0; s1; s2; s3] in let x := [ts0; ts1; ti0; ti1; tx0; tx1; tm1] in
+  (forall c, (c < 4)%nat -> szero c = true -> xg K s c = c0) ->
+  t8_relation K 2 m s x ->
+  forall r c, (r < 2)%nat -> (c < 2)%nat -> forall v,
+  group_res K ofq (Build_vstd K m s [true; true; true; true]) x (build_terms_t8 2 2 r c conn szero) v = c0.
+Proof. exact t8_2x2_exact. Qed.
+Print Assumptions physical_exactness_t8_2x2_thm.
+
+Theorem physical_exactness_u8_2x2_thm : forall (K : CField) (ofq : Qc -> K) (conn szero : nat -> bool)
+  (m0 m1 m2 m3 s0 s1 s2 s3 um1 ui0 ui1 ux0 ux1 us0 us1 : K),
+  let m := [m0; m1; m2; m3] in let s := [s0; s1; s2; s3] in let x := [um1; ui0; ui1; ux0; ux1; us0; us1] in
+  (forall c, (c < 4)%nat -> szero c = true -> xg K s c = c0) ->
+  u8_relation K 2 m s x ->
+  forall r c, (r < 2)%nat -> (c < 2)%nat -> forall v,
+  group_res K ofq (Build_vstd K m s [true; true; true; true]) x (build_terms_u8 2 2 r c conn szero) v = c0.
+Proof. exact u8_2x2_exact. Qed.
+Print Assumptions physical_exactness_u8_2x2_thm.
+
+Theorem physical_exactness_t8_1x1_thm : forall (K : CField) (ofq : Qc -> K) (conn szero : nat -> bool)
+  (m0 s0 ts0 ti0 tx0 : K),
+  (szero 0%nat = true -> s0 = c0) -> t8_relation K 1 [m0] [s0] [ts0; ti0; tx0] ->
+  forall v, group_res K ofq (Build_vstd K [m0] [s0] [true]) [ts0; ti0; tx0] (build_terms_t8 1 1 0 0 conn szero) v = c0.
+Proof. exact t8_1x1_exact. Qed.
+Print Assumptions physical_exactness_t8_1x1_thm.
+
+Theorem physical_exactness_u8_1x1_thm : forall (K : CField) (ofq : Qc -> K) (conn szero : nat -> bool)
+  (m0 s0 ui0 ux0 us0 : K),
+  (szero 0%nat = true -> s0 = c0) -> u8_relation K 1 [m0] [s0] [ui0; ux0; us0] ->
+  forall v, group_res K ofq (Build_vstd K [m0] [s0] [true]) [ui0; ux0; us0] (build_terms_u8 1 1 0 0 conn szero) v = c0.
+Proof. exact u8_1x1_exact. Qed.
+Print Assumptions physical_exactness_u8_1x1_thm.
+
+(* NOISE VECTORS ON THEIR OWN GRID PASS THROUGH THE GIVEN POINTS: the interpolation of
+   C18MErrorModel instantiated with the spline model of property C10 (VMatrixNoise.noise_interp =
+   spline_calc once + spline_eval per calibration frequency).  After any history on any well-formed
+   state, an accepted call on an own grid of n >= 2 points with gaps >= MIN_DX > 0 stores, at a
+   calibration frequency equal to the k-th grid point, exactly sigma_nf[k] and sigma_tr[k]. *)
+Theorem stored_noise_at_knot_thm : forall (min_dx : Qc), 0 < min_dx ->
+  forall (env : menv Qc) (h : list (mvec Qc * margs Qc)) (st : option (mvec Qc)) (fresh : mvec Qc) (a : margs Qc)
+         (fv nf vnf : list Qc) (vtr : option (list Qc)) (j : nat) (k : Z),
+  state_wf Qc (length (en_calf Qc env)) st -> fresh_ok Qc env h ->
+  length fresh = length (en_calf Qc env) ->
+  q_lower min_dx env a = MSet Qc vnf vtr -> a_fv Qc a = Some fv -> a_nf Qc a = Some nf ->
+  (2 <= a_n Qc a)%nat -> (a_n Qc a <= length fv)%nat -> (a_n Qc a <= length nf)%nat ->
+  match a_tr Qc a with Some tr => (a_n Qc a <= length tr)%nat | None => True end ->
+  (forall i, (0 <= i < Z.of_nat (a_n Qc a) - 1)%Z -> min_dx <= gq fv (i + 1) - gq fv i) ->
+  (j < length (en_calf Qc env))%nat -> (0 <= k < Z.of_nat (a_n Qc a))%Z ->
+  nth j (en_calf Qc env) 0 = gq fv k ->
+  exists v, q_run_args min_dx env st (h ++ [(fresh, a)]) = Some v /\
+            fst (nth j v (0, 0)) = gq nf k /\
+            snd (nth j v (0, 0)) = match a_tr Qc a with Some tr => gq tr k | None => 0 end.
+Proof. exact stored_noise_at_knot_l. Qed.
+Print Assumptions stored_noise_at_knot_thm.
+
+(* ... and data on a line are reproduced at EVERY calibration frequency, on the grid, between its
+   points and outside it (for two points: every data are on a line, package M's sigma_two_points) *)
+Theorem stored_noise_linear_thm : forall (min_dx : Qc), 0 < min_dx ->
+  forall (env : menv Qc) (h : list (mvec Qc * margs Qc)) (st : option (mvec Qc)) (fresh : mvec Qc) (a : margs Qc)
+         (fv nf vnf : list Qc) (vtr : option (list Qc)) (p q : Qc) (j : nat),
+  state_wf Qc (length (en_calf Qc env)) st -> fresh_ok Qc env h ->
+  length fresh = length (en_calf Qc env) ->
+  q_lower min_dx env a = MSet Qc vnf vtr -> a_fv Qc a = Some fv -> a_nf Qc a = Some nf ->
+  (2 <= a_n Qc a)%nat -> (a_n Qc a <= length fv)%nat -> (a_n Qc a <= length nf)%nat ->
+  (forall i, (0 <= i < Z.of_nat (a_n Qc a) - 1)%Z -> min_dx <= gq fv (i + 1) - gq fv i) ->
+  (forall i, (0 <= i < Z.of_nat (a_n Qc a))%Z -> gq nf i = p + q * gq fv i) ->
+  (j < length (en_calf Qc env))%nat ->
+  exists v, q_run_args min_dx env st (h ++ [(fresh, a)]) = Some v /\
+            fst (nth j v (0, 0)) = p + q * nth j (en_calf Qc env) 0.
+Proof. exact stored_noise_linear_l. Qed.
+Print Assumptions stored_noise_linear_thm.
+
+(* the premises are met: four calibration frequencies, an own grid of four points with curved sigma
+   values, after a history with an earlier accepted and a rejected call: the stored vector holds the
+   given values at the two calibration frequencies that are grid points, and NOT the chord between them *)
+Theorem stored_noise_instance_thm : ex_accepted = true /\ ex_stored_ok = true.
+Proof. exact stored_noise_instance. Qed.
+Print Assumptions stored_noise_instance_thm.
